@@ -41,13 +41,15 @@ REQUIRED_COUNTERS = {"quick": {"original_fingerprints_compared": 4000, "fingerpr
                                "sibling_vs_fresh_derivation": 1000, "copy_name_checked": 4000, "origin_chain_checked": 3000,
                                "op_results_vs_baseline": 3000, "cond_consistency_checked": 3000, "model_args_vs_reference": 150,
                                "sampler_runs_completed": 150, "gibbs_sweeps_observed": 400, "gibbs_chain_vs_untouched_twin": 10,
-                               "recondition_loop_steps": 3500, "loop_conditional_vs_joint": 500, "autoname_names_checked": 150, "state_checked_after_malformed_op": 700, "malformed_ops_refused": 400, "bp_ops": 30},
+                               "recondition_loop_steps": 3500, "loop_conditional_vs_joint": 500, "autoname_names_checked": 150, "state_checked_after_malformed_op": 700, "malformed_ops_refused": 400, "bp_ops": 30, "reuse_requests": 300, "reuse_levels_checked": 80,
+                               "reuse_repeat_identical": 300, "reuse_joint_consistency": 300},
                      "thorough": {"original_fingerprints_compared": 40000, "fingerprint_fields_compared": 2000000,
                                   "derived_fingerprints_compared": 50000, "twin_fingerprints_compared": 22000,
                                   "sibling_vs_fresh_derivation": 10000, "copy_name_checked": 40000, "origin_chain_checked": 30000,
                                   "op_results_vs_baseline": 30000, "cond_consistency_checked": 30000, "model_args_vs_reference": 1500,
                                   "sampler_runs_completed": 1500, "gibbs_sweeps_observed": 3000, "gibbs_chain_vs_untouched_twin": 70,
-                                  "recondition_loop_steps": 60000, "loop_conditional_vs_joint": 8000, "autoname_names_checked": 1300, "state_checked_after_malformed_op": 7000, "malformed_ops_refused": 4000, "bp_ops": 200}}
+                                  "recondition_loop_steps": 60000, "loop_conditional_vs_joint": 8000, "autoname_names_checked": 1300, "state_checked_after_malformed_op": 7000, "malformed_ops_refused": 4000, "bp_ops": 200, "reuse_requests": 2500, "reuse_levels_checked": 700,
+                                  "reuse_repeat_identical": 2500, "reuse_joint_consistency": 2500}}
 BUDGET_S = {"quick": 600.0, "thorough": 3000.0}   # watchdog only; typical use is far below (see report)
 
 RTOL, ATOL = 1e-9, 1e-12
@@ -120,8 +122,19 @@ def cases(tier, seed):
         if i % 2 == 0:
             opts["m"] = opts["n"]
         out.append({"kind": "bp", "i": i, "tpl": "hier", "opts": opts})
+    nreuse = 60 if tier == "quick" else 500
+    for i in range(nreuse):
+        tpl = "chain" if i % 2 else "hier"
+        opts = _hier_opts(R, tier) if tpl == "hier" else _chain_opts(R, tier)
+        if tpl == "hier":
+            opts.update({"n": R.randint(5, 8), "defer": "none"})
+        else:
+            opts["defer"] = "none"
+            if i % 4 == 1:
+                opts["c"] = R.choice(["gauss_ab", "normal_a_b", "gauss_b", "lognormal_ab"])
+        out.append({"kind": "reuse", "i": i, "tpl": tpl, "opts": opts, "depth": 1 + i % 3, "reps": R.choice([2, 3, 4])})
     # the few long cases first (spread over the shards), so that a wall-clock budget cuts programs, not whole case kinds
-    rank = {"loop": 0, "gibbs": 1, "autoname": 1, "bp": 1, "seq": 2}
+    rank = {"loop": 0, "gibbs": 1, "autoname": 1, "bp": 1, "reuse": 1, "seq": 2}
     out.sort(key=lambda c: (rank[c["kind"]], -c.get("sweeps", 0) if c["kind"] == "loop" else c["i"]))
     return out
 
@@ -1479,14 +1492,18 @@ def run_case(case, ctx):
         run_autoname(case, ctx)
     elif case["kind"] == "bp":
         run_bp(case, ctx)
+    elif case["kind"] == "reuse":
+        run_reuse(case, ctx)
     else:
         raise ValueError(case["kind"])
 
 class _Fixture:
     """World + fingerprints of the originals + helpers shared by the Gibbs and loop cases."""
-    def __init__(self, case, ctx):
-        self.case, self.ctx = case, ctx
+    def __init__(self, case, ctx, prepare=None):
+        self.case, self.ctx, self.prepare = case, ctx, prepare
         self.W = build_world(case)
+        if prepare:
+            prepare(self.W)
         self.cfg = {"kind": case["kind"], "tpl": case["tpl"]}
         self.ref = {eid: fingerprint(obj, self.W) for eid, obj in self.W.originals()}
         self.objs = dict(self.W.originals())
@@ -1527,6 +1544,8 @@ class _Fixture:
         """Originals (and re-derived extras) of an untouched twin world must look the same."""
         ctx = self.ctx
         T = build_world(self.case)
+        if getattr(self, "prepare", None):
+            self.prepare(T)
         tob = dict(T.originals())
         for eid, obj in self.objs.items():
             ctx.count("twin_fingerprints_compared")
@@ -1755,6 +1774,155 @@ def run_bp(case, ctx):
     F.twin(lambda Tw, eid: make(Tw).posterior, "BayesianProblem")
     ctx.nontrivial()
     ctx.nontrivial(f"bp/{xp}/{case['opts']['model']}")
+
+# ---- derived objects re-used as inputs (the output of a conditioning becomes somebody's original)
+
+REUSE_EXTRAS = ("qq", "rr", "ss")
+
+def _reuse_prepare(W):
+    """Independent distributions that are joined with re-used derived objects (present in the world and in its twin)."""
+    import cuqi
+    D = cuqi.distribution
+    r = np.random.RandomState(77)
+    W.loose["qq"] = D.Gaussian(np.zeros(2), 1.2, name="qq")
+    W.loose["rr"] = D.Gamma(2.0, 1.0, name="rr")
+    W.loose["ss"] = D.Normal(0.3, 1.5, name="ss")
+    W.probes["qq"] = [r.standard_normal(2) for _ in range(3)]
+    W.probes["rr"] = [float(np.exp(0.3 * r.standard_normal())) for _ in range(3)]
+    W.probes["ss"] = [float(r.standard_normal()) for _ in range(3)]
+    W.orig_ids = {id(o) for _, o in W.originals()}
+
+def _scalar(v):
+    return v[0] == "v" and isinstance(v[1], np.ndarray) and v[1].size == 1 and np.isfinite(v[1]).all()
+
+def _agree(a, b):
+    return _same(("v", a[1].ravel()), ("v", b[1].ravel())) or abs(a[1].ravel()[0] - b[1].ravel()[0]) <= 1e-7 * max(1.0, abs(b[1].ravel()[0]))
+
+def run_reuse(case, ctx):
+    """Level 0: reduce / condition the world's objects. Level k: put the result of level k-1 into a NEW JointDistribution with an
+    independent distribution, evaluate it, condition it both ways (-> a copy of the re-used object carrying one more constant, and
+    a copy of the independent one), several times; the reduced copy becomes the input of level k+1. Posteriors are taken apart and
+    their likelihood / prior re-joined. Every re-used object is tracked like an original."""
+    import cuqi
+    D = cuqi.distribution
+    F = _Fixture(case, ctx, prepare=_reuse_prepare)
+    W = F.W
+    rs = core.np_rng(ctx.seed, PROPERTY, core.canon(case), "reuse")
+    nodes = W.st["nodes"]
+    depth, reps = case["depth"], case["reps"]
+    op = "reuse_in_joint"
+    # ---- level-0 recipes: functions of a world, so that the twin can re-derive them
+    recipes = {}
+    for v in nodes:
+        j = int(rs.randint(3))
+        recipes["R:" + v] = (lambda Wx, v=v, j=j: Wx.joint(**{n: Wx.probes[n][j] for n in nodes if n != v}))
+        deps = W.st["deps"][v]
+        if deps:
+            jj = int(rs.randint(3))
+            recipes["C:" + v] = (lambda Wx, v=v, jj=jj: Wx.dists[v](**{p_: Wx.probes[p_][jj] for p_ in Wx.st["deps"][v]}))
+    order = sorted(recipes)
+    order = [order[t] for t in rs.permutation(len(order))][:4]
+    live = {}
+    def plain(o_):
+        return isinstance(o_, D.Distribution) and not isinstance(o_, (D.JointDistribution, D.Posterior)) and \
+            _val(lambda: o_.is_cond) == ("v", False)
+    def level(Wx, prev, vname, ex, jv, je, order_flag):
+        """One re-use level on world Wx: (J2, copy of prev given ex, copy of ex given prev's variable)."""
+        exd = Wx.loose[ex]
+        J2 = D.JointDistribution(prev, exd) if order_flag else D.JointDistribution(exd, prev)
+        return J2, J2(**{ex: Wx.probes[ex][je]}), J2(**{vname: Wx.probes[vname][jv]})
+    for eid in order:
+        vname = eid.split(":")[1]
+        try:
+            R0 = recipes[eid](W)
+        except Exception as e:  # noqa
+            ctx.refused("reuse_level0", e)
+            continue
+        F.track(eid, R0)
+        ctx.count("reuse_inputs:" + type(R0).__name__)
+        chain = []        # (extra name, jv, je, order_flag) per level, for the twin
+        cur, cur_id = R0, eid
+        for lv in range(depth):
+            ex = REUSE_EXTRAS[lv]
+            jv, je, flag = int(rs.randint(3)), int(rs.randint(3)), bool(rs.randint(2))
+            if isinstance(cur, D.Posterior):
+                # take the posterior apart and re-join its (derived) likelihood and prior with an independent distribution
+                try:
+                    parts = (cur.likelihood, cur.prior, W.loose[ex])
+                    first = None
+                    for rep in range(reps):
+                        J2 = D.JointDistribution(*parts)
+                        a = _val(lambda: J2.logd(**{vname: W.probes[vname][jv], ex: W.probes[ex][je]}))
+                        r2 = J2(**{ex: W.probes[ex][je]})
+                        b = _val(lambda: r2.logd(W.probes[vname][jv]))
+                        ctx.count("reuse_requests")
+                        if _scalar(a) and _scalar(b):
+                            ctx.count("reuse_joint_consistency")
+                            if not _agree(a, b):
+                                ctx.violation("conditioned_copy_inconsistent", {**F.cfg, "object": type(cur).__name__, "op": op, "level": lv},
+                                              detail=f"{cur_id}: joint of re-used posterior parts logd {_show(a)} vs its reduction {_show(b)}")
+                        if first is None:
+                            first = (a, b)
+                        else:
+                            ctx.count("reuse_repeat_identical")
+                            if not (_same(first[0], a) and _same(first[1], b)):
+                                ctx.violation("repeated_request_differs", {**F.cfg, "object": type(cur).__name__, "op": op, "level": lv},
+                                              detail=f"{cur_id} level {lv}: request #{rep} gave {_show(a)} / {_show(b)}, the first gave {_show(first[0])} / {_show(first[1])}")
+                    F.check(f"{cur_id}: after re-using the posterior's parts at level {lv}", op)
+                    ctx.count("reuse_levels_checked")
+                except Exception as e:  # noqa
+                    ctx.refused("reuse_posterior_parts", e)
+                break
+            if not plain(cur):
+                break
+            first, r_keep = None, None
+            try:
+                for rep in range(reps):
+                    J2, r_cur, r_ex = level(W, cur, vname, ex, jv, je, flag)
+                    a = _val(lambda: J2.logd(**{vname: W.probes[vname][jv], ex: W.probes[ex][je]}))
+                    b = _val(lambda: r_cur.logd(W.probes[vname][jv]))
+                    c = _val(lambda: r_ex.logd(W.probes[ex][je]))
+                    base = _val(lambda: cur.logd(W.probes[vname][jv]))
+                    ctx.count("reuse_requests")
+                    if _scalar(a) and _scalar(b) and _scalar(c):
+                        ctx.count("reuse_joint_consistency")
+                        if not (_agree(a, b) and _agree(a, c)):
+                            ctx.violation("conditioned_copy_inconsistent", {**F.cfg, "object": type(cur).__name__, "op": op, "level": lv},
+                                          detail=f"{cur_id} level {lv} request #{rep}: joint logd {_show(a)}, reduction given {ex} {_show(b)}, reduction given {vname} {_show(c)}")
+                    if first is None:
+                        first, r_keep = (a, b, c, base), r_cur
+                    else:
+                        ctx.count("reuse_repeat_identical")
+                        if not all(_same(x_, y_) for x_, y_ in zip(first, (a, b, c, base))):
+                            ctx.violation("repeated_request_differs", {**F.cfg, "object": type(cur).__name__, "op": op, "level": lv},
+                                          detail=f"{cur_id} level {lv}: identical request #{rep} gave joint/reduced/reduced/input logd "
+                                                 f"{[_show(x_) for x_ in (a, b, c, base)]}, the first gave {[_show(x_) for x_ in first]}")
+                    if rep == 0 and rs.uniform() < 0.3:
+                        run_some_sampler(cuqi, r_cur, np.atleast_1d(np.asarray(W.probes[vname][jv], dtype=float)), rs)
+                        ctx.count("reuse_sampler_runs")
+            except Exception as e:  # noqa
+                ctx.refused("reuse_level", e)
+                break
+            F.check(f"{cur_id}: after level {lv} ({reps} requests on JointDistribution({vname}, {ex}))", op)
+            ctx.count("reuse_levels_checked")
+            chain.append((ex, jv, je, flag))
+            cur_id = f"{eid}/L{lv}"
+            cur = r_keep
+            F.track(cur_id, cur)          # the reduced copy is the next level's input: now an 'original' itself
+            live[cur_id] = (eid, list(chain))
+        live[eid] = (eid, [])
+    def rederive(Tw, tid):
+        if tid not in live:
+            return None
+        root, ch = live[tid]
+        o_ = recipes[root](Tw)
+        for ex, jv, je, flag in ch:
+            o_ = level(Tw, o_, root.split(":")[1], ex, jv, je, flag)[1]
+        return o_
+    F.twin(rederive, op)
+    if ctx.counters.get("reuse_levels_checked", 0) > 0:
+        ctx.nontrivial()
+        ctx.nontrivial(f"reuse/{case['tpl']}/depth{depth}")
 
 # ---- originals WITHOUT an explicit name= (the name is inferred from the Python variable that holds them)
 
